@@ -33,7 +33,7 @@ def knownKinds : List (String × Nat) :=
   [("ahc",1),("ah",2),("ahp",1),("rc",1),("rr",3),("rhc",1),("rhr",2),("sub",1),("em",2),("ea",2),("hs",2),("hg",2),("he",3),
    ("pb",2),("pc",1),("sc",1),("scr",1),("cc",1),("cr",3),("stp",1),("stpr",2),("st",1),("sd",1),("sdnil",1),("rng",0),
    ("cx",0),("go",0),("qs",0),("sube",1),("nst",1),("sgo",0),("rel",0),("wce",0),("fin",3),("kr",2),("ks",2),("kp",2),("kb",2),("kS",0),("kL",0),("kR",0),
-   ("kh",1),("kg",1),("kw",0),("kd",1)]
+   ("kh",1),("kg",1),("kw",0),("kd",1),("kl",0)]
 
 def numOf (f : String) : Nat :=
   match f.toNat? with
@@ -161,9 +161,9 @@ def c06ClosesAll (evs : Array Ev) : String := Id.run do
   for h in handlersOf evs "sub" do
     if countAll evs (isH "sc" h) > 1 then return "violated:subscriber_closed_more_than_once"
     if countAll evs (isH "pc" h) > 1 then return "violated:publisher_closed_more_than_once"
-  match firstIdx evs (is "fin"), firstIdx evs (is "kS") with
-  | some f, some sg =>
-    if evs[f]!.s.getD 0 "" != "0" then return "ok"     -- reported by the liveness rule
+  -- quiescence = the harness's goroutine census ran and found nothing left (`qs`); without it nothing is demanded here
+  match firstIdx evs (is "qs"), firstIdx evs (is "kS") with
+  | some _, some sg =>
     for h in handlersOf evs "sub" do
       let endedBefore := anyBefore evs sg (isH "stp" h) || anyBefore evs sg (is "cx")
       if anyBefore evs sg (isH "kg" h) && !endedBefore then
